@@ -78,6 +78,8 @@ void c17_inst(AsmT& dom_asm, MatrixT& matrix, VectorT& vector, const SpaceT& spa
   dom_asm.compile();
   dom_asm.compile_all_elements();
   dom_asm.clear();
+  AsmT second_asm(dom_asm.get_trafo());   // constructor (member sizes)
+  second_asm.compile_all_elements();
   ThreadFence fence;
   fence.close();
   fence.open(fence.wait());
